@@ -40,6 +40,12 @@ pub struct Case {
     /// polls while the wakers are (possibly) inside wake().
     #[serde(default)]
     pub drop_ring: bool,
+    /// Per waker thread: operations it queues (polls once: an unsubmitted
+    /// entry that the kernel, once it has it, keeps in flight) right before
+    /// its first wake(), so that the wake message is not at the head of the
+    /// submission queue. Default rings only.
+    #[serde(default)]
+    pub queued_ahead: Vec<u8>,
     pub tape: Vec<u16>,
     /// Priority schedule (few preemptions, long runs) instead of the tape.
     #[serde(default)]
@@ -48,6 +54,9 @@ pub struct Case {
 
 struct SendRing(Ring);
 unsafe impl Send for SendRing {}
+
+struct SendFut(std::pin::Pin<Box<a10::fs::Truncate<'static>>>);
+unsafe impl Send for SendFut {}
 
 const SQPOLL_TOKEN: u64 = 0x5109_0011;
 
@@ -67,8 +76,9 @@ impl Property for C11 {
             proptest::bool::weighted(0.2),
             proptest::collection::vec(any::<u16>(), 0..160),
             crate::strat::maybe_pct(3, 150),
+            proptest::collection::vec(prop_oneof![3 => Just(0u8), 2 => Just(1u8), 1 => Just(2u8)], 3),
         )
-            .prop_map(|(mode, zero_polls, wakers, full_queue, prefill, drop_ring, tape, pct)| Case { mode, zero_polls, wakers, full_queue, prefill, drop_ring, tape, pct })
+            .prop_map(|(mode, zero_polls, wakers, full_queue, prefill, drop_ring, tape, pct, queued_ahead)| Case { mode, zero_polls, wakers, full_queue, prefill, drop_ring, queued_ahead, tape, pct })
             .boxed()
     }
 
@@ -138,6 +148,10 @@ fn run_case(case: &Case, ctx: &mut Ctx) {
     let wakers_done = Arc::new(AtomicUsize::new(0));
     let errors: Arc<Mutex<Vec<String>>> = Arc::new(Mutex::new(Vec::new()));
     let nwakers = case.wakers.len().clamp(1, 3);
+    let queued_ops: Arc<Mutex<Vec<SendFut>>> = Arc::new(Mutex::new(Vec::new()));
+    if case.mode == Mode::Default && !case.full_queue && case.queued_ahead.iter().take(nwakers).any(|a| *a > 0) {
+        classes.push("entries-ahead-of-wake-message");
+    }
 
     let ring_slot = Arc::new(Mutex::new(Some(SendRing(ring))));
     let mut threads: Vec<Box<dyn FnOnce() + Send>> = Vec::new();
@@ -218,7 +232,23 @@ fn run_case(case: &Case, ctx: &mut Ctx) {
         let n = case.wakers[t].clamp(1, 2);
         let wd = wakers_done.clone();
         let errors = errors.clone();
+        let ahead = if case.mode == Mode::Default && !case.full_queue { case.queued_ahead.get(t).copied().unwrap_or(0).min(2) } else { 0 };
+        let queued = queued_ops.clone();
         threads.push(Box::new(move || {
+            for k in 0..ahead {
+                // An operation of this thread, queued and not submitted.
+                let mut f = Box::pin(afd.truncate(177 + 10 * t as u64 + k as u64));
+                let w = std::task::Waker::noop();
+                let mut cx = std::task::Context::from_waker(w);
+                let r = {
+                    let _s = track::scope(track::TAG_A10);
+                    catch(|| std::future::Future::poll(f.as_mut(), &mut cx).is_ready())
+                };
+                if let Err((m, l)) = r {
+                    errors.lock().unwrap().push(format!("queueing an operation panicked at {l}: {m}"));
+                }
+                queued.lock().unwrap().push(SendFut(f));
+            }
             for _ in 0..n {
                 sched::point(sched::Kind::Syscall);
                 starts.lock().unwrap().push(seq.fetch_add(1, Ordering::SeqCst));
@@ -348,6 +378,7 @@ fn run_case(case: &Case, ctx: &mut Ctx) {
     {
         let _s = track::scope(track::TAG_A10);
         drop(primed);
+        drop(std::mem::take(&mut *queued_ops.lock().unwrap()));
         let _ = catch(|| drop(ring));
     }
     let before = sim::events_len();
